@@ -122,8 +122,8 @@ func zzMax3(a, b, c uint32) uint32 {
 // zzH_C01_vote_rules: semantic oracles of C01.b/c/d on the real updatePrevotesPrecommits,
 // updateMaxHeightPrevoted, updateMaxHeightPrecommitted.
 //
-//zz:opt loop=16 merge=~/pkg/collection/ints.Max[uint32],~/pkg/collection/ints.Min[uint32]
-//zz:quick L=3 n=2 sets=2 budget=300s
+//zz:opt loop=16 timeout=60000 merge=~/pkg/collection/ints.Max[uint32],~/pkg/collection/ints.Min[uint32]
+//zz:quick L=3 n=2 sets=2 budget=400s
 //zz:thorough L=4 n=2 sets=2 budget=40m
 func zzH_C01_vote_rules(t *zzT) {
 	L, n := t.Param("L", 3), t.Param("n", 2)
